@@ -48,9 +48,7 @@ def mk_not(t):
     if is_const(t):
         return const(not t[2])
     if t[0] == "not":
-        return ("truth", t[1]) if t[1][0] not in ("cmp", "not", "truth", "bool") else t[1]
-    if t[0] == "truth":
-        return ("not", t[1])
+        return t[1]
     if t[0] == "cmp":
         return mk_cmp(NEG[t[1]], t[2], t[3])
     if t[0] == "bool":
@@ -211,7 +209,8 @@ def walk(t):
     while stack:
         x = stack.pop()
         if isinstance(x, tuple):
-            yield x
+            if x and isinstance(x[0], str):
+                yield x
             stack.extend(y for y in x if isinstance(y, tuple))
 
 
